@@ -373,4 +373,13 @@ def StrtodExact (strtod : List Nat → Dbl) : Prop :=
     m < 9007199254740992 → -1074 ≤ e → e ≤ 971 →
     Dbl.eqv (strtod ((if neg then [45] else []) ++ (ip ++ (46 :: fp)))) (.fin neg m e)
 
+/-- an IDEAL `strtod` on the texts `[-]digits.digits` (no rounding: the value `num / 10^k` written as
+    `(num / 5^k) * 2^-k`, which is the value itself whenever it is dyadic): witness that `StrtodExact` is satisfiable -/
+def strtodIdeal (text : List Nat) : Dbl :=
+  let neg := text.head? == some 45
+  let r := if neg then text.drop 1 else text
+  let ip := r.takeWhile isDigit
+  let fp := ((r.dropWhile isDigit).drop 1).takeWhile isDigit
+  .fin neg ((ip ++ fp).foldl (fun acc d => acc * 10 + (d - 48)) 0 / 5 ^ fp.length) (-(fp.length : Int))
+
 end Nstd.Codec
